@@ -236,6 +236,61 @@ func runMuxAcceptorClosesMid() (impl, pred string) {
 	return impl, "ok"
 }
 
+// runMuxAcceptedNeverServed: multiplexed; one side accepts id 70 but never calls the listener's Accept() (its server is not
+// started), the other side dials 70 and gives up; then the listener is closed.  A fresh pair on id 80 (accept first)
+// works afterwards, in the same direction.
+func runMuxAcceptedNeverServed(role string) (impl, pred string) {
+	p, err := newGrpcPair(true)
+	if err != nil {
+		return "setup-error", "FAIL:setup"
+	}
+	defer p.close()
+	acceptor, dialler := p.plug, p.host
+	if role == "client" {
+		acceptor, dialler = p.host, p.plug
+	}
+	ln, err := acceptor.Accept(70)
+	if err != nil {
+		return "accept-err", "FAIL:setup-accept"
+	}
+	time.Sleep(100 * time.Millisecond)
+	ans, conn, err := pingKeep(dialler, 70, 1500*time.Millisecond)
+	if conn != nil {
+		conn.Close()
+	}
+	first := "err"
+	if err == nil && ans == "70" {
+		first = "ok"
+	}
+	ln.Close()
+	time.Sleep(200 * time.Millisecond)
+	go func() {
+		defer func() { recover() }()
+		servePingPong(acceptor, 80)
+	}()
+	time.Sleep(150 * time.Millisecond)
+	ans, conn2, err := pingKeep(dialler, 80, 8*time.Second)
+	if conn2 != nil {
+		defer conn2.Close()
+	}
+	fresh := "ok"
+	if err != nil || ans != "80" {
+		fresh = "failed"
+	}
+	mainOK := true
+	if err, hung, pp := withTimeout(5*time.Second, p.client.Ping); err != nil || hung || pp != nil {
+		mainOK = false
+	}
+	impl = fmt.Sprintf("first=%s fresh=%s main=%s", first, fresh, b01(mainOK))
+	switch {
+	case fresh != "ok":
+		return impl, "FAIL:fresh-pair-failed-after-accepted-never-served"
+	case !mainOK:
+		return impl, "FAIL:main-connection-dead"
+	}
+	return impl, "ok"
+}
+
 // runEarlyAccept: a real gRPC plugin accepts IDs 1..3 while its server is being initialised; the host attaches `delay`
 // later (its broker stream starts only then) and dials each ID at once: every first call must be answered by its ID.
 func runEarlyAccept(delay time.Duration) (impl, pred string) {
